@@ -54,6 +54,9 @@ type eCfg struct {
 	// Omit: which of max_numwant / default_numwant / max_scrape_infohashes the configuration leaves out (bits 1, 2, 4):
 	// the frontends fill in their defaults (Config.Validate) - and must leave every other option alone doing so
 	Omit int `json:"omit,omitempty"`
+	// SlowMs: the tracker logic takes this long per request while the HTTP frontend is configured with read/write timeouts
+	// of SlowMs+10 ms: however long the logic takes, the response that is written is the bencoded answer
+	SlowMs int `json:"slow_ms,omitempty"`
 }
 
 type eReq struct {
@@ -85,9 +88,13 @@ type eRec struct {
 	done    chan struct{}
 	gate    chan struct{} // After* waits here until the driver has recycled the request buffer
 	inner   *middleware.Logic
+	delay   time.Duration // a slow tracker logic (a slow hook, a busy store)
 }
 
 func (l *eRec) HandleAnnounce(ctx context.Context, r *bittorrent.AnnounceRequest) (context.Context, *bittorrent.AnnounceResponse, error) {
+	if l.delay > 0 {
+		time.Sleep(l.delay)
+	}
 	c, resp, err := l.inner.HandleAnnounce(ctx, r)
 	l.mu.Lock()
 	defer l.mu.Unlock()
@@ -107,6 +114,9 @@ func (l *eRec) AfterAnnounce(ctx context.Context, r *bittorrent.AnnounceRequest,
 	l.inner.AfterAnnounce(ctx, r, resp)
 }
 func (l *eRec) HandleScrape(ctx context.Context, r *bittorrent.ScrapeRequest) (context.Context, *bittorrent.ScrapeResponse, error) {
+	if l.delay > 0 {
+		time.Sleep(l.delay)
+	}
 	c, resp, err := l.inner.HandleScrape(ctx, r)
 	l.mu.Lock()
 	defer l.mu.Unlock()
@@ -214,7 +224,11 @@ func e2eRun(o *Out, kind string, cfg eCfg, reqs []eReq) {
 	if err != nil {
 		panic(err)
 	}
-	rec := &eRec{done: make(chan struct{}, 16)}
+	rec := &eRec{done: make(chan struct{}, 16), delay: time.Duration(cfg.SlowMs) * time.Millisecond}
+	var hto time.Duration
+	if cfg.SlowMs > 0 {
+		hto = time.Duration(cfg.SlowMs+10) * time.Millisecond
+	}
 	rec.inner = middleware.NewLogic(middleware.ResponseConfig{AnnounceInterval: time.Duration(cfg.Interval), MinAnnounceInterval: time.Duration(cfg.MinIntv)}, store, nil, nil)
 	// what the configuration FILE says: the omitted numeric options are zero there; cfg carries the defaults the model works with
 	fileNW, fileDef, fileScr := cfg.MaxNW, cfg.DefNW, cfg.MaxScrape
@@ -229,7 +243,7 @@ func e2eRun(o *Out, kind string, cfg eCfg, reqs []eReq) {
 	}
 	uf := udp.VerifNewOffline(rec, udp.Config{PrivateKey: cfg.Key, MaxClockSkew: time.Duration(cfg.SkewNs), EnableRequestTiming: cfg.Timing,
 		ParseOptions: udp.ParseOptions{AllowIPSpoofing: cfg.USpoof, MaxNumWant: fileNW, DefaultNumWant: fileDef, MaxScrapeInfoHashes: fileScr}})
-	hh, hstop := httpfe.VerifHandler(rec, httpfe.Config{Addr: "127.0.0.1:0", EnableRequestTiming: cfg.Timing, AnnounceRoutes: []string{"/announce", "/a/:k/announce"}, ScrapeRoutes: []string{"/scrape"},
+	hh, hstop := httpfe.VerifHandler(rec, httpfe.Config{Addr: "127.0.0.1:0", ReadTimeout: hto, WriteTimeout: hto, IdleTimeout: hto, EnableRequestTiming: cfg.Timing, AnnounceRoutes: []string{"/announce", "/a/:k/announce"}, ScrapeRoutes: []string{"/scrape"},
 		ParseOptions: httpfe.ParseOptions{AllowIPSpoofing: cfg.HSpoof, RealIPHeader: cfg.HdrName, MaxNumWant: fileNW, DefaultNumWant: fileDef, MaxScrapeInfoHashes: fileScr}})
 	clock := int64(0)
 	var terms []string
@@ -544,6 +558,9 @@ func e2eStream(o *Out, rng *rand.Rand, n int) {
 			cfg.Interval += int64(rng.Intn(999999999)) // sub-second part
 		}
 		cfg.Timing = rng.Intn(2) == 0
+		if h%10 == 4 {
+			cfg.SlowMs = 30
+		}
 		if rng.Intn(3) == 0 {
 			// a partial configuration: the documented defaults (100 / 50 / 50) apply to what is left out
 			cfg.Omit = 1 + rng.Intn(7)
